@@ -2897,15 +2897,6 @@ func (fr *Frame) call(st *State, x *ssa.Call) bool {
 				fr.assume(st, fmt.Sprintf("(forall ((%s Int)) (! (=> (and (<= 0 %s) (< %s %s)) (= (%s %s %s (+ %s %s)) (%s %s %s %s))) :pattern ((%s %s %s %s))))",
 					q3, q3, q3, lb, ef, name, res, la, q3, ef, arr, b.T, q3, ef, arr, b.T, q3))
 			}
-			{
-				// and in accessor form triggered by an element of the new slice: it is an element of one of the two sources
-				// (what a universally quantified invariant over the new slice needs for a skolem index)
-				name := st.heap[key]
-				c.n++
-				q4 := fmt.Sprintf("i_q%d", c.n)
-				fr.assume(st, fmt.Sprintf("(forall ((%s Int)) (! (and (=> (and (<= 0 %s) (< %s %s)) (= (%s %s %s %s) (%s %s %s %s))) (=> (and (<= %s %s) (< %s (+ %s %s))) (= (%s %s %s %s) (%s %s %s (- %s %s))))) :pattern ((%s %s %s %s))))",
-					q4, q4, q4, la, ef, name, res, q4, ef, arr, a.T, q4, la, q4, q4, la, lb, ef, name, res, q4, ef, arr, b.T, q4, la, ef, name, res, q4))
-			}
 			// and the first appended element as a ground fact (append(xs, v) has no earlier read of the argument array that
 			// could trigger the quantified form)
 			fr.assume(st, fmt.Sprintf("(=> (> %s 0) (= (%s %s %s %s) (%s %s %s 0)))", lb, ef, st.heap[key], res, la, ef, arr, b.T))
